@@ -5,10 +5,11 @@
           accessors of `Import`, never by the name of a helper
   C09.R2  every edge insertion is guarded by `start != end` on exactly the (flattened) values that are inserted; any other test of the
           construction code that depends on the limit and decides about a pair of names is tabulated and must be 'both flatten to the
-          same node' (or its negation) - not a string-prefix relation
+          same node' (or its negation) - not a string-prefix relation; whether an edge is inserted never depends on reachability
+          (has_path & co.) between its ends
   C09.R3  whatever turns a raw name into a graph node (method, module-level function, functools.partial, lambda, conditional
           expression) is tabulated over a finite table of names and limits: identity without a limit, the first limit+1 dotted
-          components otherwise; it keeps no state shared between graphs
+          components otherwise; neither it nor the construction code keeps node names in state shared between graphs
   C09.R4  tabulated from the public entry points down to the constructor call: the limit the graph receives is the user's limit plus the
           number of levels between root_path and module_path; None stays None; no offset when the paths coincide
   C09.R5  the limit acts through the truncation only: an import (a module) is withheld from the graph because of the limit only if
